@@ -355,4 +355,146 @@ Section Link.
       split; [eapply Hlink; eauto|]. eapply (indirect_edge g rk Hrk); eauto.
     - left. auto.
   Qed.
+
+  Lemma hit_cands_ok a h y :
+    find_export a (m_exports (getm g (fst h))) = Some (snd h) -> In y (HC h) -> cand_ok g y.
+  Proof.
+    intros Hf. unfold hit_cands, entry_cands. destruct (entry_of (getm g (fst h)) (snd h)) as [r|u n|u|] eqn:Ee; intros Hy.
+    - destruct Hy as [<-|[]]. unfold cand_ok. cbn [fst snd]. unfold entry_of in Ee.
+      destruct (find_imp (snd h) (m_imports (getm g (fst h)))) as [ni|].
+      + destruct (nth_error (m_records (getm g (fst h))) (ni_record ni)) as [rc|]; [|discriminate].
+        destruct (r_target rc); [|discriminate]. destruct (ni_is_star ni); discriminate.
+      + inversion Ee; subst. apply (Hnoref (fst h) (a, snd h)). apply find_export_In. exact Hf.
+    - eapply den_ok; eauto.
+    - destruct Hy as [<-|[]]. exact I.
+    - contradiction.
+  Qed.
+
+  Lemma check_nil r : check [] r = r.
+  Proof. reflexivity. Qed.
+
+  Lemma amb_fold f (IHf : main_stmt f) a o cyc' loc :
+    cyc_ge cyc' (rank o) -> forall arefs Y ev0 Y' ev1,
+    (forall h, In h arefs -> find_export a (m_exports (getm g (fst h))) = Some (snd h) /\ (rank (fst h) < rank o)%nat) ->
+    fold_left (amb_step f cyc' loc) arefs (Some (Y, ev0)) = Some (Y', ev1) ->
+    ev1 = ev0 /\ exists N1, Y' = Y ++ N1 /\
+      (forall r, In r N1 -> exists h, In h arefs /\ Elem g r (HC h)) /\
+      (forall h, In h arefs -> exists r, In r N1 /\ Elem g r (HC h)).
+  Proof.
+    intros Hcyc. induction arefs as [|h arefs IH]; intros Y ev0 Y' ev1 Hfacts Hfold.
+    - cbn in Hfold. inversion Hfold; subst. split; [reflexivity|]. exists []. rewrite app_nil_r.
+      repeat split; intros; contradiction.
+    - cbn [fold_left] in Hfold.
+      destruct (Hfacts h (or_introl eq_refl)) as [Hf Hr].
+      assert (Hone : exists ar, amb_step f cyc' loc (Some (Y, ev0)) h = Some (Y ++ [ar], ev0) /\ Elem g ar (HC h)).
+      { destruct (amb_step f cyc' loc (Some (Y, ev0)) h) as [[Y1 e1]|] eqn:Es; [|rewrite amb_fold_none in Hfold; discriminate].
+        unfold amb_step in Es.
+        destruct (hit_entry a h Hf) as [[Hni Hc]|[nj [u [Hi [Hu [Hult Hcase]]]]]].
+        - rewrite Hni in Es. inversion Es; subst. eexists. split; [reflexivity|].
+          right. exists (fst h, BName (snd h)), loc. rewrite Hc. split; [reflexivity|]. split; [left; reflexivity|].
+          intros y' [<-|[]]. reflexivity.
+        - assert (His : is_import g h = true) by (unfold is_import; rewrite Hi; reflexivity).
+          rewrite His in Es.
+          destruct (mloop g kinds resolved true f h cyc' res0 [] ev0) as [[ar e']|] eqn:Em; [|discriminate].
+          inversion Es; subst Y1 e1. destruct Hcase as [[Hs Hc]|[Hs [Hc [Hne Hru]]]].
+          + destruct f as [|f']; [discriminate|].
+            rewrite (star_step_gen f' h nj u cyc' res0 [] ev0 Hi Hs Hu Hult (star_not_in_cyc h nj cyc' _ Hi Hs Hcyc)) in Em.
+            inversion Em; subst. eexists. split; [reflexivity|]. rewrite check_nil.
+            right. exists (u, BNamespace), 0. rewrite Hc. split; [reflexivity|]. split; [left; reflexivity|].
+            intros y' [<-|[]]. reflexivity.
+          + assert (Hcg : cyc_ge cyc' (S (rank u))) by (eapply cyc_ge_mono; [|exact Hcyc]; lia).
+            destruct (IHf h nj u cyc' res0 [] ev0 ar e' Hi Hs Hu Hcg Em) as [[Hnil _]|[_ [He [rp [N [Har HS]]]]]]; [contradiction|].
+            subst e'. eexists. split; [reflexivity|]. rewrite Hc. subst ar. cbn [app].
+            apply Sum_check; [intros y Hy; eapply den_ok; eauto|exact HS]. }
+      destruct Hone as [ar [Hs1 He1]]. rewrite Hs1 in Hfold.
+      destruct (IH (Y ++ [ar]) ev0 Y' ev1 (fun h0 Hh0 => Hfacts h0 (or_intror Hh0)) Hfold) as [Hev [N1 [HY [HA HB]]]].
+      split; [exact Hev|]. exists (ar :: N1). split; [rewrite HY, <- app_assoc; reflexivity|]. split.
+      + intros r [<-|Hr1]; [exists h; split; [left; reflexivity|exact He1]|].
+        destruct (HA r Hr1) as [h0 [Hh0 He0]]. exists h0. split; [right; exact Hh0|exact He0].
+      + intros h0 [<-|Hh0]; [exists ar; split; [left; reflexivity|exact He1]|].
+        destruct (HB h0 Hh0) as [r [Hr1 He0]]. exists r. split; [right; exact Hr1|exact He0].
+  Qed.
+
+  Lemma main_all : forall f, main_stmt f.
+  Proof.
+    induction f as [|f IHf]; intros t ni o cyc res X ev r ev' Hi Hs Ht Hcyc Hm; [discriminate|].
+    set (a := ni_alias ni) in *.
+    destruct (import_of_In' _ _ Hi) as [Hin Href].
+    assert (Holt : (o < length g)%nat).
+    { destruct (plain' (fst t)) as [_ [_ [_ [Htg0 _]]]]. destruct (Htg0 ni Hin) as [o' [Ho' Hlt]].
+      rewrite Ht in Ho'. inversion Ho'; subst. exact Hlt. }
+    assert (Hcyc' : cyc_ge (cyc ++ [t]) (rank o)).
+    { intros c Hc. apply in_app_or in Hc as [Hc|[<-|[]]].
+      - destruct (Hcyc c Hc) as [nc [oc [H1 [H2 [H3 H4]]]]]. exists nc, oc. repeat split; auto. lia.
+      - exists ni, o. repeat split; auto. }
+    cbn [mloop] in Hm. rewrite (not_in_cyc t ni o cyc Hi Ht Hcyc), Hi in Hm.
+    unfold advance, record_of in Hm. pose proof Ht as Ht'. unfold import_target in Ht'.
+    destruct (nth_error (m_records (getm g (fst t))) (ni_record ni)) as [rc|] eqn:Erc; [|discriminate].
+    rewrite Ht', Hs in Hm. cbn [negb andb] in Hm.
+    assert (Hkw : (negb (m_lazy (getm g o)) && negb (m_export_kw (getm g o)) && negb (ni_alias ni =? 0)
+                   && negb (m_uses_exports (getm g o)) && negb (m_uses_module (getm g o))) = false).
+    { destruct (named_kw' _ _ _ Hin Hs Ht) as [H0|Hk].
+      - rewrite H0. cbn. rewrite !andb_false_r. reflexivity.
+      - rewrite Hk. cbn. rewrite !andb_false_r. reflexivity. }
+    rewrite Hkw in Hm. rewrite (HkindsE o Holt) in Hm. cbn [ekind_eqb] in Hm.
+    fold resolved in Hm. fold a in Hm.
+    destruct (ed_lookup a (resolved o)) as [e|] eqn:El.
+    - (* found in ResolvedExports *)
+      destruct (lookup_shape o a e El) as [h1 [arefs [-> [Hf1 [Hr1 [Hfacts Hiff]]]]]].
+      cbn [ed_src ed_ref ed_alias ed_ambs] in Hm.
+      change (fold_left _ arefs (Some (X, ev))) with (fold_left (amb_step f (cyc ++ [t]) (a + 1)) arefs (Some (X, ev))) in Hm.
+      destruct (fold_left (amb_step f (cyc ++ [t]) (a + 1)) arefs (Some (X, ev))) as [[Y' ev1]|] eqn:Efold; [|discriminate].
+      destruct (amb_fold f IHf a o (cyc ++ [t]) (a + 1) Hcyc' arefs X ev Y' ev1 Hfacts Efold) as [-> [N1 [-> [HA HB]]]].
+      assert (HD : forall y, In y (HC h1) -> In y (D o a)) by (intros y Hy; apply Hiff; apply in_or_app; left; exact Hy).
+      assert (HDa : forall h y, In h arefs -> In y (HC h) -> In y (D o a)).
+      { intros h y Hh Hy. apply Hiff. apply in_or_app. right. apply in_flat_map. exists h. split; assumption. }
+      (* the summary assembled from the main hit's summary and the ambiguous refs *)
+      assert (Hasm : forall rp N2, Sum g (HC h1) rp N2 -> Sum g (D o a) rp (N1 ++ N2)).
+      { intros rp N2 [[y0 [L0 [Hrp Hy0]]] [HN Hcov]]. split; [exists y0, L0; split; [exact Hrp|apply HD; exact Hy0]|]. split.
+        - intros r0 Hr0. apply in_app_or in Hr0 as [Hr0|Hr0].
+          + destruct (HA r0 Hr0) as [h [Hh He]]. exists (HC h). split; [intros y Hy; eapply HDa; eauto|exact He].
+          + destruct (HN r0 Hr0) as [C' [Hinc He]]. exists C'. split; [intros y Hy; apply HD, Hinc; exact Hy|exact He].
+        - intros y Hy. apply Hiff in Hy. apply in_app_or in Hy as [Hy|Hy].
+          + destruct (Hcov y Hy) as [Hl|[r0 [C' [Hr0 [HyC [Hinc He]]]]]]; [left; exact Hl|right].
+            exists r0, C'. split; [apply in_or_app; right; exact Hr0|]. split; [exact HyC|]. split; [intros z Hz; apply HD, Hinc; exact Hz|exact He].
+          + apply in_flat_map in Hy as [h [Hh Hyh]]. destruct (HB h Hh) as [r0 [Hr0 He]]. right.
+            exists r0, (HC h). split; [apply in_or_app; left; exact Hr0|]. split; [exact Hyh|]. split; [intros z Hz; eapply HDa; eauto|exact He]. }
+      assert (Hsingle : forall y L, HC h1 = [y] -> Sum g (HC h1) (normal_of g y L) []).
+      { intros y L Hc. rewrite Hc. split; [exists y, L; split; [reflexivity|left; reflexivity]|]. split; [intros r0 []|].
+        intros y' [<-|[]]. left. exists L. reflexivity. }
+      assert (Hne : D o a <> []).
+      { destruct (hit_entry a h1 Hf1) as [[_ Hc]|[nj [u [_ [_ [_ [[_ Hc]|[_ [Hc [Hn _]]]]]]]]]].
+        - intro Hnil. assert (In (fst h1, BName (snd h1)) (D o a)) by (apply HD; rewrite Hc; left; reflexivity). rewrite Hnil in H. contradiction.
+        - intro Hnil. assert (In (u, BNamespace) (D o a)) by (apply HD; rewrite Hc; left; reflexivity). rewrite Hnil in H. contradiction.
+        - intro Hnil. destruct (D u (ni_alias nj)) as [|c l] eqn:Ed; [contradiction|].
+          assert (In c (D o a)) by (apply HD; rewrite Hc; left; reflexivity). rewrite Hnil in H. contradiction. }
+      right. split; [exact Hne|].
+      assert (Ht1 : (fst h1, snd h1) = h1) by (destruct h1; reflexivity). rewrite Ht1 in Hm.
+      destruct (hit_entry a h1 Hf1) as [[Hni Hc]|[nj [u [Hi1 [Hu [Hult Hcase]]]]]].
+      + (* a local binding *)
+        rewrite Hni in Hm. rewrite finish_check in Hm. inversion Hm; subst r ev'. split; [reflexivity|].
+        exists (normal_of g (fst h1, BName (snd h1)) (a + 1)), N1. split; [reflexivity|].
+        rewrite <- (app_nil_r N1). apply Hasm. apply Hsingle. exact Hc.
+      + assert (His : is_import g h1 = true) by (unfold is_import; rewrite Hi1; reflexivity).
+        rewrite His in Hm. destruct Hcase as [[Hst Hc]|[Hst [Hc [Hnn Hru]]]].
+        * (* export * as ns *)
+          destruct f as [|f']; [discriminate|].
+          rewrite (star_step_gen f' h1 nj u (cyc ++ [t]) _ (X ++ N1) ev Hi1 Hst Hu Hult
+                     (star_not_in_cyc h1 nj (cyc ++ [t]) _ Hi1 Hst Hcyc')) in Hm.
+          inversion Hm; subst r ev'. split; [reflexivity|].
+          exists (normal_of g (u, BNamespace) 0), N1. split; [reflexivity|].
+          rewrite <- (app_nil_r N1). apply Hasm. apply Hsingle. exact Hc.
+        * (* an indirect export: the loop continues *)
+          assert (Hcg : cyc_ge (cyc ++ [t]) (S (rank u))).
+          { eapply cyc_ge_mono; [|exact Hcyc']. destruct Hr1 as [Heq|Hlt]; [rewrite Heq in Hru; lia|lia]. }
+          destruct (IHf h1 nj u (cyc ++ [t]) _ (X ++ N1) ev r ev' Hi1 Hst Hu Hcg Hm) as [[Hnil _]|[_ [He [rp [N2 [Hr HS]]]]]]; [contradiction|].
+          split; [exact He|]. exists rp, (N1 ++ N2). split; [rewrite Hr, app_assoc; reflexivity|].
+          apply Hasm. rewrite Hc. exact HS.
+    - (* no matching export *)
+      cbn [ekind_eqb] in Hm.
+      destruct (plain' (fst t)) as [_ [Hts [Hgen _]]]. rewrite Hts in Hm. cbn [andb] in Hm.
+      rewrite (Hgen ni Hin) in Hm. rewrite finish_check in Hm. inversion Hm; subst r ev'.
+      left. split; [apply lookup_none; exact El|]. split; [reflexivity|].
+      unfold has_nomatch. rewrite existsb_app. cbn. rewrite orb_true_r. reflexivity.
+  Qed.
 End Link.
